@@ -36,6 +36,14 @@ Theorem C13_header_plus_text : forall lit, split_header lit ++ split_body lit = 
 Proof. exact split_header_body. Qed.
 Print Assumptions C13_header_plus_text.
 
+(* ... on the level of FETCH: BODY[HEADER] ++ BODY[TEXT] = BODY[] for every message, also one whose own Content-Type is
+   message/rfc822 (code after notes/C13-fix-4.diff: the message itself is never treated as an embedded part) *)
+Theorem C13_fetch_header_plus_text : forall ctype_of lit,
+  exists h t, fetch_section ctype_of lit [] SpHeader = Some h /\ fetch_section ctype_of lit [] SpText = Some t /\
+              h ++ t = lit /\ fetch_section ctype_of lit [] SpAll = Some lit.
+Proof. exact fetch_header_plus_text. Qed.
+Print Assumptions C13_fetch_header_plus_text.
+
 Theorem C13_section_header_plus_body : forall ctype_of lit s path,
   part_of ctype_of lit (root_sect lit) path = Some s ->
   sect_header lit s ++ sect_body lit s = sect_literal lit s.
